@@ -169,6 +169,9 @@ func (m *c15Model) journal(from int64) []string {
 }
 
 func c15Line(id int64, typ int32, ns int64, name string, ver int64, del uint32, data string) string {
+	if len(data) > 64 { // the large payloads of part 3: compared by length and hash, kept out of messages
+		data = fmt.Sprintf("<%d bytes #%x>", len(data), mc.Hash(data))
+	}
 	return fmt.Sprintf("id=%d type=%d ns=%d name=%q ver=%d del=%d data=%s", id, typ, ns, name, ver, del, data)
 }
 
@@ -311,6 +314,10 @@ func c15CheckJournal(x *c15Inst, m *c15Model) (sig, desc string, full string) {
 				last = e.Version
 			}
 			if strings.Join(got, "\n") != strings.Join(want, "\n") {
+				if len(seen) < len(want) {
+					// the client has followed the cursor to an empty page and an entity was never delivered
+					return "C15:journal-cursor-skips-entity", fmt.Sprintf("following the journal from %d with page limit %d to exhaustion delivers %v, the latest versions are %v", from, page, got, want), ""
+				}
 				return "C15:journal-differs", fmt.Sprintf("journal from %d page %d = %v, the latest versions are %v", from, page, got, want), ""
 			}
 			if from == 0 && page == 100 {
@@ -506,6 +513,51 @@ func (ex *c15Explorer) run(hist []int) mc.StepResult {
 	return mc.StepResult{Applicable: true, Key: key, Nontrivial: refused}
 }
 
+// ---------- part 3: journal paging by bytes ----------
+
+// The journal is a cursor protocol: a client continues from the last version it received. Besides the
+// count limit a page is cut by a byte budget (metricBytesReadLimit, a 1 MiB constant, counted over
+// the data fields), so with large payloads a page ends early. Part 3 creates and edits entities whose
+// data is small or ~600 KiB (two of the large ones exceed the budget, one fits in a request) in every
+// order up to the depth bound and runs the same journal oracle: following the cursor to exhaustion
+// from every start version delivers each entity's latest version exactly once, ascending.
+const c15BigSize = 600 * 1024
+
+var c15BigCreate = `{"p":"` + strings.Repeat("c", c15BigSize) + `"}`
+var c15BigEdit = `{"p":"` + strings.Repeat("e", c15BigSize) + `"}`
+
+func c15PagingCreate(big bool) c15Op {
+	label, data := "create(small)", `{"c":1}`
+	if big {
+		label, data = "create(600KiB)", c15BigCreate
+	}
+	return c15Op{name: label, build: func(m *c15Model) (c15Req, bool) {
+		return c15Req{create: true, typ: format.DashboardEvent, name: fmt.Sprintf("p%d", len(m.ents)), data: data}, true
+	}}
+}
+
+func c15PagingEdit(slot int, big bool) c15Op {
+	label, data := fmt.Sprintf("edit(slot%d,small)", slot), `{"e":1}`
+	if big {
+		label, data = fmt.Sprintf("edit(slot%d,600KiB)", slot), c15BigEdit
+	}
+	return c15Op{name: label, build: func(m *c15Model) (c15Req, bool) {
+		if slot >= len(m.ents) {
+			return c15Req{}, false
+		}
+		e := m.ents[slot]
+		return c15Req{typ: e.typ, id: e.id, version: e.version, name: e.name, data: data}, true
+	}}
+}
+
+func c15PagingOps() []c15Op {
+	return []c15Op{
+		c15PagingCreate(false), c15PagingCreate(true),
+		c15PagingEdit(0, false), c15PagingEdit(0, true),
+		c15PagingEdit(1, false), c15PagingEdit(1, true),
+	}
+}
+
 // ---------- part 2: races ----------
 
 // c15Racers: three requests for one entity, all built from the version observed now.
@@ -638,9 +690,11 @@ func TestVerifC15(t *testing.T) {
 		depth = min(depth, v)
 		rep.Cap(fmt.Sprintf("VERIF_C15_MAXDEPTH=%d", v))
 	}
-	rep.Rule = "part 1: every history up to the depth bound over {create metric a / b / ns:a, group a / ns:a, namespace ns / b, dashboard a; edit of the 1st and 2nd created entity naming its current or a stale version and keeping the name / a free name c / a possibly taken name a / a name in namespace ns:c; delete with current or stale version}, all requests through RawEditEntity, state-hashing BFS over the journal; part 2: at every distinct state reached, for every entity, {edit, delete, rename} built from the same observed version in all 6 orders on fresh replays and once from 3 concurrent goroutines. Non-trivial: the last request conflicts with the state and has to be refused (stale version, taken name, missing namespace, namespace rename)"
+	rep.Rule = "part 1: every history up to the depth bound over {create metric a / b / ns:a, group a / ns:a, namespace ns / b, dashboard a; edit of the 1st and 2nd created entity naming its current or a stale version and keeping the name / a free name c / a possibly taken name a / a name in namespace ns:c; delete with current or stale version}, all requests through RawEditEntity, state-hashing BFS over the journal; part 2: at every distinct state reached, for every entity, {edit, delete, rename} built from the same observed version in all 6 orders on fresh replays and once from 3 concurrent goroutines; part 3: every history up to its depth bound of {create, edit 1st, edit 2nd entity} x {small, ~600 KiB data} (two large entities exceed the journal's 1 MiB page byte budget), journal followed by cursor from every start version with page limits 1, 2, 100. Non-trivial: the last request conflicts with the state and has to be refused (stale version, taken name, missing namespace, namespace rename)"
 	rep.Bounds["history_depth"] = depth
 	rep.Bounds["alphabet"] = ex.names(vmetaSeq(len(ops)))
+	rep.Bounds["paging_depth"] = mc.Pick(4, 5)
+	rep.Bounds["paging_alphabet"] = (&c15Explorer{ops: c15PagingOps()}).names(vmetaSeq(len(c15PagingOps())))
 	rep.Bounds["race"] = "3 requests per entity from one observed version: 6 orders + 1 free-running concurrent pass, at every distinct state"
 	rep.Assume("a request is atomic: Engine.Do runs the whole SaveEntity callback under the single read-write connection's mutex inside the engine's open transaction (engine.go doWithoutWait), so the orders of whole requests are all interleavings; interleavings inside SQLite/cgo are not explored (the free-running pass samples them)")
 	rep.Assume("left open by the property and therefore not asserted either way (the reference follows the implementation): editing a deleted entity, naming a deleted namespace")
@@ -652,6 +706,22 @@ func TestVerifC15(t *testing.T) {
 	}
 	rep.MergeBFS("histories", st)
 	t.Logf("C15 histories: depth=%d states=%d transitions=%d perLevel=%v violations=%d wall=%.1fs", st.Depth, st.States, st.Transitions, st.PerLevel, len(st.Violations), time.Since(t0).Seconds())
+
+	// part 3: byte-limited journal pages
+	t3 := time.Now()
+	ex3 := &c15Explorer{ops: c15PagingOps(), rep: rep, states: map[string][]int{}}
+	pagingDepth := mc.Pick(4, 5)
+	if v, err := strconv.Atoi(os.Getenv("VERIF_C15_MAXDEPTH")); err == nil && v > 0 {
+		pagingDepth = min(pagingDepth, v+1)
+	}
+	st3 := mc.BFS(ex3.run, mc.BFSOptions{NumOps: len(ex3.ops), MaxDepth: pagingDepth, Workers: runtime.GOMAXPROCS(0), MaxViolations: 40})
+	for i, s := range st3.Samples {
+		if i < 2 {
+			rep.Sample(map[string]any{"part": "journal_paging", "history": ex3.names(s)})
+		}
+	}
+	rep.MergeBFS("journal_paging", st3)
+	t.Logf("C15 journal paging: depth=%d states=%d transitions=%d perLevel=%v violations=%d wall=%.1fs", st3.Depth, st3.States, st3.Transitions, st3.PerLevel, len(st3.Violations), time.Since(t3).Seconds())
 
 	// part 2
 	t1 := time.Now()
